@@ -13,12 +13,13 @@ Record jparams := mkJP {
   jp_card : card; jp_bool : bool; jp_drops : bool }.
 
 Inductive jtree :=
-| JLeaf (ls : list labels) (sers : list (list sample)) (off : Z)
+(* a vector selector; [pin] = Some a when it carries @ a (start()/end() already resolved) *)
+| JLeaf (ls : list labels) (sers : list (list sample)) (off : Z) (pin : option Z)
 (* a range function over a matrix selector, fn(sel[range] offset off): [fn] maps the step time and
    the window's points to the sample's value (None = no sample); the metric name is kept by
    last_over_time only *)
 | JRange (keep_name : bool) (fn : Z -> list point -> option Z) (range : Z)
-         (ls : list labels) (sers : list (list sample)) (off : Z)
+         (ls : list labels) (sers : list (list sample)) (off : Z) (pin : option Z)
 | JJoin (p : jparams) (l r : jtree)
 (* a per-sample operator: instant functions, unary minus, vector/scalar arithmetic and
    comparisons with a literal (Func.func_step); [drops] = the metric name is dropped *)
@@ -27,13 +28,17 @@ Inductive jtree :=
 | JCount (conv : nat -> Z) (without : bool) (grouping : list N) (t : jtree)   (* conv: the count as a value *)
 (* an aggregation whose accumulator takes its first value through [init] and every further one
    through [add] (sum: v, +; max: v, max; min; group: 1, keep): scalarTable with its reused table *)
-| JAgg (init : Z -> Z) (add : Z -> Z -> Z) (without : bool) (grouping : list N) (t : jtree).
+| JAgg (init : Z -> Z) (add : Z -> Z -> Z) (without : bool) (grouping : list N) (t : jtree)
+(* a step-invariant subtree (StepInvariantExpr): evaluated once on the window [start, start]
+   and repeated at every step by the stepInvariantOperator *)
+| JInvariant (t : jtree).
 
 (* Series() of a node *)
 Fixpoint jseries (t : jtree) : list labels :=
   match t with
-  | JLeaf ls _ _ => ls
-  | JRange keep _ _ ls _ _ => map (fun m => if keep then m else del_name m) ls
+  | JLeaf ls _ _ _ => ls
+  | JRange keep _ _ ls _ _ _ => map (fun m => if keep then m else del_name m) ls
+  | JInvariant t => jseries t
   | JJoin p l r => op_series (jp_on p) (jp_ml p) (jp_incl p) (jp_card p) (jp_bool p) (jp_drops p) (jseries l) (jseries r)
   | JMap drops _ t => map (fun m => if drops then del_name m else m) (jseries t)
   | JCount _ without grouping t => groups without grouping (jseries t)
@@ -102,13 +107,20 @@ Fixpoint zip_vecs (L R : list (Z * list (nat * Z))) : list (Z * list (nat * Z) *
   | _, _ => []
   end.
 
+(* setOffsetForAtModifier: a selector with @ a is given the offset that moves the query's start to a *)
+Definition eff_off (w : window) (off : Z) (pin : option Z) : Z :=
+  match pin with Some a => off + (w_start w - a) | None => off end.
+
+(* the time a selector is evaluated for at step ts, before its offset *)
+Definition eval_time (pin : option Z) (ts : Z) : Z := match pin with Some a => a | None => ts end.
+
 (* the engine: the stream of step vectors a node hands to its consumer *)
-Fixpoint jrun (cf : cfg) (w : window) (t : jtree) : list (Z * list (nat * Z)) + step_err :=
+Fixpoint jrun (cf : cfg) (w : window) (t : jtree) {struct t} : list (Z * list (nat * Z)) + step_err :=
   match t with
-  | JLeaf _ sers off => inl (map (fun sv => (svT sv, vec_of sv)) (concat (run cf w (PSelect sers off))))
-  | JRange _ fn range _ sers off =>
+  | JLeaf _ sers off pin => inl (map (fun sv => (svT sv, vec_of sv)) (concat (run cf w (PSelect sers (eff_off w off pin)))))
+  | JRange _ fn range _ sers off pin =>
       inl (map (fun sv => (svT sv, vec_of sv))
-               (concat (sharded_matrix fn range off (w_step w) (c_shards cf) sers (selector_batches (c_batch cf) w))))
+               (concat (sharded_matrix fn range (eff_off w off pin) (w_step w) (c_shards cf) sers (selector_batches (c_batch cf) w))))
   | JJoin p l r =>
       match jrun cf w l, jrun cf w r with
       | inl L, inl R =>
@@ -136,16 +148,24 @@ Fixpoint jrun (cf : cfg) (w : window) (t : jtree) : list (Z * list (nat * Z)) + 
                                     (repeat doacc (length (groups without grouping (jseries t)))) strm)
       | inr e => inr e
       end
+  | JInvariant t =>
+      (* cacheInputVector: one Next of the child, built for [start, start]; then one copy per step *)
+      match jrun cf (pinned_window w) t with
+      | inl strm =>
+          let cached := match strm with (_, vec) :: _ => vec | [] => [] end in
+          inl (map (fun ts => (ts, cached)) (concat (counter_batches (c_batch cf) w)))
+      | inr e => inr e
+      end
   end.
 
 (* the reference at one timestamp *)
 Fixpoint jref (lb : Z) (t : jtree) (ts : Z) : option (list (labels * Z)) :=
   match t with
-  | JLeaf ls sers off => Some (labelled Z ls (vec_of (select_step lb off sers ts)))
-  | JRange keep fn range ls sers off =>
+  | JLeaf ls sers off pin => Some (labelled Z ls (vec_of (select_step lb off sers (eval_time pin ts))))
+  | JRange keep fn range ls sers off pin =>
       (* one sample per series whose window yields a value, under the series' output labels *)
       Some (present_with_labels (map (fun m => if keep then m else del_name m) ls)
-                                (map (fun ss => range_value fn range off ss ts) sers))
+                                (map (fun ss => range_value fn range off ss (eval_time pin ts)) sers))
   | JJoin p l r =>
       match jref lb l ts, jref lb r ts with
       | Some L, Some R =>
@@ -174,21 +194,41 @@ Fixpoint jref (lb : Z) (t : jtree) (ts : Z) : option (list (labels * Z)) :=
       | Some smp => Some (ref_agg init add without grouping smp)
       | None => None
       end
+  | JInvariant t => jref lb t ts
   end.
 
-Fixpoint jok (t : jtree) : Prop :=
+(* every selector of the subtree carries @ *)
+Fixpoint jpinned (t : jtree) : Prop :=
   match t with
-  | JLeaf ls sers _ => length ls = length sers /\ Forall sorted_ts sers
-  | JRange _ _ range ls sers _ => length ls = length sers /\ Forall sorted_ts sers /\ 0 <= range
+  | JLeaf _ _ _ pin => pin <> None
+  | JRange _ _ _ _ _ _ pin => pin <> None
+  | JJoin _ l r => jpinned l /\ jpinned r
+  | JMap _ _ t => jpinned t
+  | JCount _ _ _ t => jpinned t
+  | JAgg _ _ _ _ t => jpinned t
+  | JInvariant t => jpinned t
+  end.
+
+(* [single]: the node is evaluated on a one-step window (below a JInvariant); a selector with @
+   occurs only there, and a step-invariant subtree has all its selectors pinned (PreprocessExpr;
+   where the engine's wrapping departs from that, known findings F16a/F16b) *)
+Fixpoint jokw (single : bool) (t : jtree) : Prop :=
+  match t with
+  | JLeaf ls sers _ pin => length ls = length sers /\ Forall sorted_ts sers /\ (pin = None \/ single = true)
+  | JRange _ _ range ls sers _ pin =>
+      length ls = length sers /\ Forall sorted_ts sers /\ 0 <= range /\ (pin = None \/ single = true)
   | JJoin p l r =>
-      jok l /\ jok r /\
+      jokw single l /\ jokw single r /\
       one_side_unique (jp_on p) (jp_ml p) (one_side_series (jp_card p) (jseries l) (jseries r)) /\
       (is_one_to_one (jp_card p) = true -> jp_incl p = [])
-  | JMap _ _ t => jok t
-  | JCount _ _ _ t => jok t
+  | JMap _ _ t => jokw single t
+  | JCount _ _ _ t => jokw single t
   | JAgg init add _ _ t =>
-      jok t /\ (forall a b, add (init a) b = add (init b) a) /\ (forall x a b, add (add x a) b = add (add x b) a)
+      jokw single t /\ (forall a b, add (init a) b = add (init b) a) /\ (forall x a b, add (add x a) b = add (add x b) a)
+  | JInvariant t => jokw true t /\ jpinned t
   end.
+
+Definition jok (t : jtree) : Prop := jokw false t.
 
 Lemma nth_map_labels (g : labels -> labels) (l : list labels) i : (i < length l)%nat ->
   nth i (map g l) [] = g (nth i l []).
@@ -396,8 +436,8 @@ Qed.
 (* the per-timestamp denotation of a node, at the level of sample IDs *)
 Fixpoint jdenote (lb : Z) (t : jtree) (ts : Z) : list (nat * Z) :=
   match t with
-  | JLeaf _ sers off => vec_of (select_step lb off sers ts)
-  | JRange _ fn range _ sers off => vec_of (range_step fn range off sers ts)
+  | JLeaf _ sers off pin => vec_of (select_step lb off sers (eval_time pin ts))
+  | JRange _ fn range _ sers off pin => vec_of (range_step fn range off sers (eval_time pin ts))
   | JJoin p l r =>
       pure_step Z (jp_op p) (jp_b2v p) (jp_card p) (jp_bool p)
                 (op_hidx (jp_on p) (jp_ml p) (jp_card p) (jseries l) (jseries r))
@@ -413,39 +453,90 @@ Fixpoint jdenote (lb : Z) (t : jtree) (ts : Z) : list (nat * Z) :=
       agg_emit (length (groups without grouping (jseries t1)))
                (agg_step init add without grouping (jseries t1)
                          (repeat doacc (length (groups without grouping (jseries t1)))) (jdenote lb t1 ts))
+  | JInvariant t1 => jdenote lb t1 ts
   end.
+
+(* ---- selectors with @ on a one-step window --------------------------------------------- *)
+
+Lemma grid_single w : wf_window w -> w_end w = w_start w -> grid w = [w_start w].
+Proof.
+  intros [Hse [Hst Hinst]] He. unfold grid, total_steps. rewrite He.
+  destruct (Z.eqb_spec (w_step w) 0) as [E0|NE0].
+  - simpl. unfold grid_at. rewrite E0. f_equal. lia.
+  - replace (w_start w - w_start w) with 0 by lia. rewrite Z.div_0_l by assumption. simpl.
+    unfold grid_at. f_equal. lia.
+Qed.
+
+Lemma vec_of_select_pinned lb off a s sers :
+  vec_of (select_step lb (off + (s - a)) sers s) = vec_of (select_step lb off sers a).
+Proof.
+  unfold select_step.
+  assert (E : forall ss, pick lb ss (s - (off + (s - a))) = pick lb ss (a - off)) by (intros; f_equal; lia).
+  rewrite (map_ext _ _ E). unfold stepvec_of, vec_of. destruct (collect 0 _); reflexivity.
+Qed.
+
+Lemma vec_of_range_pinned fn range off a s sers :
+  vec_of (range_step fn range (off + (s - a)) sers s) = vec_of (range_step fn range off sers a).
+Proof.
+  unfold range_step.
+  assert (E : forall ss, range_value fn range (off + (s - a)) ss s = range_value fn range off ss a).
+  { intros ss. unfold range_value, Range.window_at.
+    replace (s - (off + (s - a))) with (a - off) by lia. reflexivity. }
+  rewrite (map_ext _ _ E). unfold stepvec_of, vec_of. destruct (collect 0 _); reflexivity.
+Qed.
+
+Lemma jdenote_pinned_indep lb t : jpinned t -> forall ts ts', jdenote lb t ts = jdenote lb t ts'.
+Proof.
+  induction t as [ls sers off pin|keep fn range ls sers off pin|p l IHl r IHr|drops f t IH|conv without grouping t IH|init add without grouping t IH|t IH];
+    intros Hp ts ts'; cbn [jdenote jpinned] in *.
+  - destruct pin; [reflexivity|congruence].
+  - destruct pin; [reflexivity|congruence].
+  - destruct Hp as [Hl Hr]. rewrite (IHl Hl ts ts'), (IHr Hr ts ts'). reflexivity.
+  - rewrite (IH Hp ts ts'). reflexivity.
+  - rewrite (IH Hp ts ts'). reflexivity.
+  - rewrite (IH Hp ts ts'). reflexivity.
+  - apply IH. assumption.
+Qed.
 
 (* C01 for trees of binary operators over selectors, e.g. (a + on(x) b) * ignoring(y) group_left c:
    every node's stream is a function of the grid timestamp; its sample IDs are
    distinct and name series of the node; and at every timestamp at which the
    reference evaluation of the node succeeds, the node's samples are a
    permutation of the reference's. *)
-Theorem jtree_matches_reference cf w :
-  (0 < c_shards cf)%nat -> (0 < c_batch cf)%nat -> 0 <= c_lookback cf -> wf_window w -> noT < w_start w ->
-  forall t, jok t ->
+Lemma jtree_matches_reference_gen cf :
+  (0 < c_shards cf)%nat -> (0 < c_batch cf)%nat -> 0 <= c_lookback cf ->
+  forall t single, jokw single t ->
+  forall w, wf_window w -> noT < w_start w -> (single = true -> w_end w = w_start w) ->
     jrun cf w t = inl (map (fun ts => (ts, jdenote (c_lookback cf) t ts)) (grid w)) /\
     forall ts, good_vec (length (jseries t)) (jdenote (c_lookback cf) t ts) /\
                forall R, jref (c_lookback cf) t ts = Some R ->
                          Permutation (labelled Z (jseries t) (jdenote (c_lookback cf) t ts)) R.
 Proof.
-  intros HN HB Hlb Hw Hstart. induction t as [ls sers off|keep fn range ls sers off|p l IHl r IHr|drops f t IH|conv without grouping t IH|init add without grouping t IH]; intros Hok.
-  - destruct Hok as [Hlen Hs]. cbn [jdenote]. split.
-    + cbn [jrun]. rewrite (run_covers_grid cf w (PSelect sers off) HN HB Hlb Hw Hs). simpl denote. rewrite map_map.
-      f_equal. apply map_ext. intros ts. rewrite select_step_T. reflexivity.
+  intros HN HB Hlb. induction t as [ls sers off pin|keep fn range ls sers off pin|p l IHl r IHr|drops f t IH|conv without grouping t IH|init add without grouping t IH|t IH];
+    intros single Hok w Hw Hstart Hsingle.
+  - destruct Hok as [Hlen [Hs Hpin]]. cbn [jdenote]. split.
+    + cbn [jrun]. rewrite (run_covers_grid cf w (PSelect sers (eff_off w off pin)) HN HB Hlb Hw Hs). simpl denote. rewrite map_map.
+      f_equal. apply map_ext_in. intros ts Hts. rewrite select_step_T. f_equal.
+      destruct pin as [a|]; [|reflexivity]. destruct Hpin as [Habs|Hsg]; [discriminate|].
+      rewrite (grid_single w Hw (Hsingle Hsg)) in Hts. destruct Hts as [<-|[]].
+      cbn [eff_off eval_time]. apply vec_of_select_pinned.
     + intros ts. split.
-      * simpl. rewrite Hlen. apply (vec_of_good _ _ (select_step_wf (c_lookback cf) off sers ts)).
+      * simpl. rewrite Hlen. apply (vec_of_good _ _ (select_step_wf (c_lookback cf) off sers (eval_time pin ts))).
       * intros R HR. simpl in HR. inversion HR; subst. apply Permutation_refl.
-  - destruct Hok as [Hlen [Hs Hr]]. cbn [jdenote]. split.
-    + cbn [jrun]. rewrite (sharded_matrix_spec fn range off (c_shards cf) (c_batch cf) w sers HN HB Hw Hr Hs).
+  - destruct Hok as [Hlen [Hs [Hr Hpin]]]. cbn [jdenote]. split.
+    + cbn [jrun]. rewrite (sharded_matrix_spec fn range (eff_off w off pin) (c_shards cf) (c_batch cf) w sers HN HB Hw Hr Hs).
       rewrite <- concat_map, (selector_batches_cover_grid (c_batch cf) w HB Hw), map_map.
-      f_equal. apply map_ext. intros ts. rewrite range_step_T. reflexivity.
+      f_equal. apply map_ext_in. intros ts Hts. rewrite range_step_T. f_equal.
+      destruct pin as [a|]; [|reflexivity]. destruct Hpin as [Habs|Hsg]; [discriminate|].
+      rewrite (grid_single w Hw (Hsingle Hsg)) in Hts. destruct Hts as [<-|[]].
+      cbn [eff_off eval_time]. apply vec_of_range_pinned.
     + intros ts. split.
-      * simpl. rewrite map_length, Hlen. apply (vec_of_good _ _ (range_step_wf fn range off sers ts)).
+      * simpl. rewrite map_length, Hlen. apply (vec_of_good _ _ (range_step_wf fn range off sers (eval_time pin ts))).
       * intros R HR. simpl in HR. inversion HR; subst. clear HR.
         unfold labelled, vec_of, range_step. simpl jseries.
         rewrite labelled_stepvec by (rewrite !map_length; exact Hlen). apply Permutation_refl.
   - destruct Hok as [Hokl [Hokr [HA Hincl]]].
-    destruct (IHl Hokl) as [El Pl]. destruct (IHr Hokr) as [Er Pr]. cbn [jdenote].
+    destruct (IHl single Hokl w Hw Hstart Hsingle) as [El Pl]. destruct (IHr single Hokr w Hw Hstart Hsingle) as [Er Pr]. cbn [jdenote].
     set (fl := jdenote (c_lookback cf) l) in *. set (fr := jdenote (c_lookback cf) r) in *.
     assert (Hgood : forall ts, good_step Z (jseries l) (jseries r) (ts, fl ts, fr ts)).
     { intros ts. destruct (Pl ts) as [[A1 A2] _]. destruct (Pr ts) as [[B1 B2] _]. unfold good_step. simpl. repeat split; assumption. }
@@ -482,7 +573,7 @@ Proof.
         pose proof (join_step_permutation Z (jp_op p) (jp_b2v p) (jp_on p) (jp_ml p) (jp_incl p) (jp_card p) (jp_bool p) (jp_drops p)
                       0 (jseries l) (jseries r) HA Hincl (ts, fl ts, fr ts) out' (Hgood ts) Href') as Pstep.
         eapply Permutation_trans; [exact Pstep|apply Permutation_sym; exact Pout].
-  - destruct (IH Hok) as [Eg Pg]. cbn [jdenote]. set (g := jdenote (c_lookback cf) t) in *. split.
+  - destruct (IH single Hok w Hw Hstart Hsingle) as [Eg Pg]. cbn [jdenote]. set (g := jdenote (c_lookback cf) t) in *. split.
     + cbn [jrun]. rewrite Eg. rewrite map_map. reflexivity.
     + intros ts. destruct (Pg ts) as [[G1 G2] PG]. split.
       * split.
@@ -502,7 +593,7 @@ Proof.
           destruct (f (snd iv)) as [v|]; simpl; [|reflexivity]. f_equal. f_equal.
           apply nth_map_labels. apply Hr. left. reflexivity. }
         rewrite E. apply Permutation_flat_map. exact PG.
-  - destruct (IH Hok) as [Eg Pg]. cbn [jdenote]. set (g := jdenote (c_lookback cf) t) in *.
+  - destruct (IH single Hok w Hw Hstart Hsingle) as [Eg Pg]. cbn [jdenote]. set (g := jdenote (c_lookback cf) t) in *.
     set (sl := jseries t) in *. set (ng := length (groups without grouping sl)).
     set (fresh := repeat dacc ng). split.
     + cbn [jrun]. rewrite Eg. fold sl. rewrite count_stream_fresh by apply repeat_length. rewrite map_map. reflexivity.
@@ -578,7 +669,7 @@ Proof.
                  destruct (members_of without grouping sl gi ids) as [|i0 ms] eqn:Em; [destruct Hmem|].
                  simpl. left. reflexivity.
   - destruct Hok as [Hok [Hcs Hrc]].
-    destruct (IH Hok) as [Eg Pg]. cbn [jdenote]. set (g := jdenote (c_lookback cf) t) in *.
+    destruct (IH single Hok w Hw Hstart Hsingle) as [Eg Pg]. cbn [jdenote]. set (g := jdenote (c_lookback cf) t) in *.
     set (sl := jseries t) in *. set (ng := length (groups without grouping sl)).
     set (fresh := repeat doacc ng). split.
     + cbn [jrun]. rewrite Eg. fold sl. rewrite agg_stream_fresh by apply repeat_length. rewrite map_map. reflexivity.
@@ -654,6 +745,32 @@ Proof.
               apply agg_emit_in. split; [exact Hg|]. rewrite (Hslot gi Hg).
               destruct (members Z (inputs without grouping sl) gi (g ts)) as [|v0 ms]; [destruct Hne|].
               simpl. split; [reflexivity|exact Ef].
+  - destruct Hok as [Hok Hp]. cbn [jrun jdenote jseries jref].
+    assert (Hwp : wf_window (pinned_window w)).
+    { destruct Hw as [_ [Hst _]]. unfold pinned_window, wf_window. simpl. repeat split; try lia. }
+    destruct (IH true Hok (pinned_window w) Hwp Hstart (fun _ => eq_refl)) as [Eg Pg].
+    split; [|exact Pg].
+    rewrite Eg. rewrite (grid_single (pinned_window w) Hwp eq_refl). cbn [map pinned_window w_start].
+    rewrite (counter_batches_cover_grid (c_batch cf) w HB Hw).
+    f_equal. apply map_ext. intros ts. f_equal. apply jdenote_pinned_indep. exact Hp.
+Qed.
+
+(* C01 for operator trees: vector/vector joins, per-sample operators, aggregations, over vector
+   selectors and range functions of matrix selectors, with step-invariant (@) subtrees:
+   every node's stream is a function of the grid timestamp; its sample IDs are
+   distinct and name series of the node; and at every timestamp at which the
+   reference evaluation of the node succeeds, the node's samples are a
+   permutation of the reference's. *)
+Theorem jtree_matches_reference cf w :
+  (0 < c_shards cf)%nat -> (0 < c_batch cf)%nat -> 0 <= c_lookback cf -> wf_window w -> noT < w_start w ->
+  forall t, jok t ->
+    jrun cf w t = inl (map (fun ts => (ts, jdenote (c_lookback cf) t ts)) (grid w)) /\
+    forall ts, good_vec (length (jseries t)) (jdenote (c_lookback cf) t ts) /\
+               forall R, jref (c_lookback cf) t ts = Some R ->
+                         Permutation (labelled Z (jseries t) (jdenote (c_lookback cf) t ts)) R.
+Proof.
+  intros HN HB Hlb Hw Hstart t Hok.
+  apply (jtree_matches_reference_gen cf HN HB Hlb t false Hok w Hw Hstart). discriminate.
 Qed.
 
 (* C11 for operator trees: the stream does not depend on the shard count or the batch size *)
@@ -687,4 +804,20 @@ Proof.
   eexists. split; [exact E|]. split.
   - apply in_map_iff. exists ts. split; [reflexivity|assumption].
   - rewrite E'. rewrite (grid_instant (c_batch cf') (mkW ts ts 0) HB' eq_refl). simpl. rewrite Heq. reflexivity.
+Qed.
+
+(* C06: a step-invariant subtree (every selector carries @) is evaluated once, at the query's start,
+   and its vector is what every step of the window gets; it is also what the reference gets at
+   every step (jtree_matches_reference: jdenote of a pinned subtree does not depend on the step) *)
+Corollary jinvariant_evaluated_once cf w t :
+  (0 < c_shards cf)%nat -> (0 < c_batch cf)%nat -> 0 <= c_lookback cf -> wf_window w -> noT < w_start w ->
+  jok (JInvariant t) ->
+  jrun cf w (JInvariant t) = inl (map (fun ts => (ts, jdenote (c_lookback cf) t (w_start w))) (grid w)) /\
+  forall ts, jdenote (c_lookback cf) (JInvariant t) ts = jdenote (c_lookback cf) t (w_start w).
+Proof.
+  intros HN HB Hlb Hw Hs Hok.
+  destruct (jtree_matches_reference cf w HN HB Hlb Hw Hs (JInvariant t) Hok) as [E _].
+  destruct Hok as [_ Hp]. split.
+  - rewrite E. f_equal. apply map_ext. intros ts. f_equal. cbn [jdenote]. apply jdenote_pinned_indep. exact Hp.
+  - intros ts. cbn [jdenote]. apply jdenote_pinned_indep. exact Hp.
 Qed.
